@@ -4,7 +4,7 @@ from common import *
 from sighash_common import *
 
 PID = "C05"
-TIES = ['encode_varint', 'prepend_compact_size', 'tagged_hash']   # source-tie files coq/Properties/Tie_<f>.v that belong to this property
+TIES = ['encode_varint', 'prepend_compact_size', 'tagged_hash', 'taproot_digest']   # source-tie files coq/Properties/Tie_<f>.v that belong to this property
 THEOREMS = ["C05_digest"]
 TECHNIQUE = "Coq proof (signature-message refinement to BIP341/BIP342 for all counts and sizes) + extracted model/spec and Python-oracle correspondence, 949 real taproot signatures under libsecp256k1 BIP340 verification"
 RULE = ("transactions of 1..8 inputs and 1..8 outputs, every input index valid for the hash type, seven hash types, key path and script "
